@@ -20,9 +20,12 @@ def run_walk(sess):
     fam = 'walk'
     quick = sess.tier == 'quick'
     M = 4 if quick else 5
-    sess.bounds[fam] = {'nodes': M, 'roots': 1, 'zip members': '0..2', 'corrupt archives': 'symbolic', 'member open failures': 'symbolic',
-                        'depth window': 'mindepth symbolic 0..2', 'traversal': 'bfs (with and without the option) and dfs'}
+    sess.bounds[fam] = {'nodes': '%d (with member / open faults), 4 (with a symbolic upper end of the depth window)' % M, 'roots': 1, 'zip members': '0..2', 'corrupt archives': 'symbolic', 'member open failures': 'symbolic',
+                        'depth window': 'mindepth symbolic 0..2; maxdepth symbolic 0..3 in the runs without faults', 'traversal': 'bfs (with and without the option) and dfs'}
     for archives, dfs, faults in ((True, False, True), (False, False, False), (True, True, False)):
+        # the runs whose depth window has a symbolic upper end keep 4 nodes in the thorough tier too (5 nodes x two window ends x archives
+        # does not finish in the budget: 49 000 paths in 25 minutes)
+        M = 4 if (quick or not faults) else 5
         ex = sess.executor(W.models(), unwind=3 * M + 6, maxsteps=400000)
         viol = {}; st = {'paths': 0}
 
@@ -43,6 +46,7 @@ def run_walk(sess):
             mind = ctx.fresh_bv('mindepth', 32); ctx.assume(ULE(mind, BitVecVal(2, 32)))
             # the depth window has an upper end too (an archive lying exactly at the limit still shows its members): in the run without
             # faults, so that the number of paths stays what it was
+            # (these runs keep 4 nodes in the thorough tier)
             maxd = ctx.fresh_bv('maxdepth', 32) if not faults else BitVecVal(0, 32)
             if not faults:
                 ctx.assume(Or(maxd == 0, And(ULE(maxd, BitVecVal(3, 32)), UGE(maxd, mind))))
